@@ -9,6 +9,13 @@ modes of the connection: `doCache = True` (`dc`), and `doCache = False` where on
 (unlocked weak probe, acquire, weak probe again; `put` / `created` store a weak reference; `expireAll` is a
 no-op; no cull bookkeeping).
 
+WHICH DICT an access uses: `self.cache` is an attribute that `expireAll` REBINDS (`self.cache = {}`), so the
+attribute load is an action of its own whenever the loading thread does not hold the cache lock (the
+rebinding needs the lock, so a load by the holder commutes with everything): `probeL` / `crSetL` load the
+attribute and remember the generation `gen` of the dict they got; the following dict operation acts on that
+dict — the current one, or an abandoned one kept in `olds` while aliases of it exist (its values stay alive).
+The code re-reads `self.cache` for every operation, so an alias lives across one scheduling point only.
+
 ATOMIC ACTIONS ARE THE SHARED ACCESSES: one dict get/set/del/`in`, one `list(d.keys())`, one `next()`
 of a dict iterator, the `self.cache = {}` rebinding, one lock acquire (blocking) / release, one read
 or write of `cullCount`, one `CacheSet.caches` access while the class has no entry yet, one DB
@@ -96,13 +103,13 @@ inductive Pc where
   -- cullCount bookkeeping of CacheFactory.get / created
   | ccTest (k : K) | ccRead (k : K) | ccWrite (k : K) (v : Nat) | ccReset (k : K)
   -- CacheFactory.get + SQLObject.get
-  | probe (i : Id) | acq (i : Id) | relook (i : Id) | relRel (i : Id) (o : Obj)
+  | probeL (i : Id) | probe (i : Id) (g : Nat) | acq (i : Id) | relook (i : Id) | relRel (i : Id) (o : Obj)
   | weakGet (i : Id) | weakDel (i : Id) (o : Obj) | weakDelDead (i : Id) (o : Obj) | strongSet (i : Id) (o : Obj) | relSet (i : Id) (o : Obj)
   | select (i : Id) | put (i : Id) (o : Obj) | finRel (i : Id) (o : Obj) | finRelNF (i : Id)
   -- CacheFactory.get with doCache = False
   | nProbe (i : Id) | nAcq (i : Id) | nRelook (i : Id)
   -- create
-  | insert (i : Id) | crSet (i : Id) (o : Obj) | crSelect (i : Id) (o : Obj)
+  | insert (i : Id) | crSetL (i : Id) (o : Obj) | crSet (i : Id) (o : Obj) (g : Nat) | crSelect (i : Id) (o : Obj)
   -- expire
   | exAcq (i : Id) | exInStrong (i : Id) | exDelStrong (i : Id) | exInWeak (i : Id) | exDelWeak (i : Id)
   | exRel | exRelErr
@@ -136,6 +143,9 @@ structure State where
   stale : List Obj        -- ghost: objects removed from the cache by `expire`
   transit : Option (Id × Obj)  -- ghost: entry being moved between the maps by the lock holder
   refs : List Obj         -- instances some thread has obtained (and keeps)
+  gen : Nat               -- how often `self.cache` has been rebound: names the current dict object
+  hold : Nat              -- aliases of the current dict held by threads between a load and the operation
+  olds : List (Nat × AMap × Nat)   -- abandoned dicts that still have aliases: (generation, content, aliases)
   pins : List Obj         -- instances the environment keeps a reference to
   th : Tid → Th
 
@@ -143,7 +153,24 @@ structure State where
 def aliveIn (refs pins : List Obj) (strong : AMap) (o : Obj) : Bool :=
   refs.contains o || pins.contains o || (avals strong).contains o
 
-def alive (s : State) (o : Obj) : Bool := aliveIn s.refs s.pins s.strong o
+/-- the values of the abandoned dicts that are still aliased: the alias keeps the dict, the dict its values -/
+def ovals (olds : List (Nat × AMap × Nat)) : List Obj := (olds.map fun e => avals e.2.1).flatten
+
+def alive (s : State) (o : Obj) : Bool := aliveIn s.refs (s.pins ++ ovals s.olds) s.strong o
+
+def oget : List (Nat × AMap × Nat) → Nat → Option AMap
+  | [], _ => none
+  | (g', m, _) :: r, g => if g' = g then some m else oget r g
+
+/-- `d[i] = o` on an abandoned dict -/
+def oset : List (Nat × AMap × Nat) → Nat → Id → Obj → List (Nat × AMap × Nat)
+  | [], _, _, _ => []
+  | (g', m, c) :: r, g, i, o => if g' = g then (g', aset m i o, c) :: r else (g', m, c) :: oset r g i o
+
+/-- an alias of the abandoned dict of generation `g` goes away; the dict with its last alias -/
+def orelease : List (Nat × AMap × Nat) → Nat → List (Nat × AMap × Nat)
+  | [], _ => []
+  | (g', m, c) :: r, g => if g' = g then (if c ≤ 1 then r else (g', m, c - 1) :: r) else (g', m, c) :: orelease r g
 
 def setTh (f : Tid → Th) (t : Tid) (v : Th) : Tid → Th := fun u => if u = t then v else f u
 
@@ -168,14 +195,14 @@ def finish (s : State) (t : Tid) (o : Out) : State :=
 
 /-- after the cullCount bookkeeping (and the embedded cull, if any) -/
 def afterCC (s : State) (t : Tid) : K → State
-  | .get i => goto s t (.probe i)
-  | .create i o => goto s t (.crSet i o)
+  | .get i => goto s t (.probeL i)
+  | .create i o => goto s t (.crSetL i o)
   | _ => finish s t .unit
 
 /-- after the class' CacheFactory was found in / installed into `caches` -/
 def afterCaches (s : State) (t : Tid) : K → State
   | .get i => if s.dc then goto s t (.ccTest (.get i)) else goto s t (.nProbe i)
-  | .create i o => if s.dc then goto s t (.ccTest (.create i o)) else goto s t (.crSet i o)
+  | .create i o => if s.dc then goto s t (.ccTest (.create i o)) else goto s t (.crSet i o s.gen)
   | .expire i => goto s t (.exAcq i)
   | .expireAll => goto s t .eaAcq
   | .cull => goto s t (.cuAcq .cull)
@@ -215,10 +242,20 @@ def step (s : State) (t : Tid) : Option State :=
   | .ccWrite k v => some (afterCC { s with cc := v } t k)
   | .ccReset k => some (goto { s with cc := 0 } t (.cuAcq k))
   -- get
-  | .probe i =>
-    match aget s.strong i with
-    | some o => some (finish { s with refs := s.refs ++ [o] } t (.obj i o))
-    | none => some (goto s t (.acq i))
+  | .probeL i => some (goto { s with hold := s.hold + 1 } t (.probe i s.gen))     -- `self.cache` (unlocked)
+  | .probe i g =>
+    if g = s.gen then
+      match aget s.strong i with
+      | some o => some (finish { s with refs := s.refs ++ [o], hold := s.hold - 1 } t (.obj i o))
+      | none => some (goto { s with hold := s.hold - 1 } t (.acq i))
+    else
+      -- the attribute was rebound after the load: the probe reads the abandoned dict
+      match oget s.olds g with
+      | some m =>
+        (match aget m i with
+         | some o => some (finish { s with refs := s.refs ++ [o], olds := orelease s.olds g } t (.obj i o))
+         | none => some (goto { s with olds := orelease s.olds g } t (.acq i)))
+      | none => some (goto s t (.acq i))
   | .acq i =>
     match s.lock with
     | none => some (goto { s with lock := some t } t (.relook i))
@@ -275,10 +312,16 @@ def step (s : State) (t : Tid) : Option State :=
     else
       let s' := { s with db := s.db ++ [i], fresh := s.fresh + 1, refs := s.refs ++ [s.fresh] }
       if s.caches then
-        (if s.dc then some (goto s' t (.ccTest (.create i s.fresh))) else some (goto s' t (.crSet i s.fresh)))
+        (if s.dc then some (goto s' t (.ccTest (.create i s.fresh))) else some (goto s' t (.crSet i s.fresh s.gen)))
       else some (goto s' t (.csGet (.create i s.fresh)))
-  | .crSet i o =>
-    if s.dc then some (goto { s with strong := aset s.strong i o } t (.crSelect i o))
+  | .crSetL i o => some (goto { s with hold := s.hold + 1 } t (.crSet i o s.gen))     -- `self.cache` (lock-free)
+  | .crSet i o g =>
+    if s.dc then
+      (if g = s.gen then
+        some (goto { s with strong := aset s.strong i o, hold := s.hold - 1 } t (.crSelect i o))
+       else
+        -- stale alias: the entry goes into the abandoned dict
+        some (goto { s with olds := orelease (oset s.olds g i o) g } t (.crSelect i o)))
     else some (goto { s with weak := aset s.weak i o } t (.crSelect i o))
   | .crSelect i o => if i ∈ s.db then some (finish s t (.obj i o)) else some (finish s t (.notFound i))
   -- expire
@@ -318,7 +361,9 @@ def step (s : State) (t : Tid) : Option State :=
       | some (k, v) => some (goto s t (.eaSetWeak k v (pos + 1) used))
       | none => some (goto s t .eaSwap)
   | .eaSetWeak k v pos used => some (goto { s with weak := aset s.weak k v } t (.eaNext pos used))
-  | .eaSwap => some (goto { s with strong := [] } t .eaRel)
+  | .eaSwap =>
+    some (goto { s with strong := [], gen := s.gen + 1, hold := 0,
+                        olds := if s.hold = 0 then s.olds else s.olds ++ [(s.gen, s.strong, s.hold)] } t .eaRel)
   | .eaRel => some (releaseFinish s t .unit)
   | .eaRelErr => some (releaseFinish s t (.exc .runtimeError))
   -- cull
@@ -347,7 +392,7 @@ def step (s : State) (t : Tid) : Option State :=
     match aget s.strong i with
     | some _ =>
       -- "the object may have been gc'd when removed from the cache above"
-      if aliveIn s.refs s.pins (adel s.strong i) o then
+      if aliveIn s.refs (s.pins ++ ovals s.olds) (adel s.strong i) o then
         some (goto { s with strong := adel s.strong i, transit := some (i, o) } t (.cuWeakSet k i o rest))
       else some (goto { s with strong := adel s.strong i } t (cuStrongNext k rest))
     | none => some (goto s t .cuRelErr)
@@ -375,7 +420,8 @@ def startTh (dc c : Bool) : List Op → Th
 def mkInit (dc caches : Bool) (strong weak : AMap) (db : List Id) (fresh freq frac cc off : Nat)
     (pins : List Obj) (progs : Tid → List Op) : State :=
   { dc := dc, caches := caches, strong := strong, weak := weak, lock := none, cc := cc, off := off, freq := freq,
-    frac := frac, db := db, fresh := fresh, stale := [], transit := none, refs := [], pins := pins,
+    frac := frac, db := db, fresh := fresh, stale := [], transit := none, refs := [], pins := pins, gen := 0,
+    hold := 0, olds := [],
     th := fun t => startTh dc caches (progs t) }
 
 def finished (s : State) (t : Tid) : Bool := (s.th t).pc = .idle
